@@ -194,7 +194,9 @@ class Rat:
 
 KW_POSITIONS = {
     "np.fft.rfft": ["a", "n"], "np.fft.irfft": ["a", "n"], "np.fft.fft": ["a", "n"], "np.fft.ifft": ["a", "n"],
-    "np.fromfile": ["file", "dtype", "count", "sep", "offset"], "np.roll": ["a", "shift", "axis"], "np.sum": ["a", "axis"], "np.zeros": ["shape", "dtype"], "np.empty": ["shape", "dtype"],
+    "np.fromfile": ["file", "dtype", "count", "sep", "offset"], "np.pad": ["array", "pad_width", "mode"],
+    "np.apply_along_axis": ["func1d", "axis", "arr"], "np.expand_dims": ["a", "axis"], "np.median": ["a", "axis"], "np.mean": ["a", "axis"],
+    "np.moveaxis": ["a", "source", "destination"], "np.roll": ["a", "shift", "axis"], "np.sum": ["a", "axis"], "np.zeros": ["shape", "dtype"], "np.empty": ["shape", "dtype"],
 }
 
 
